@@ -10,7 +10,9 @@ modes, tshape) with that array.
 from __future__ import annotations
 
 import itertools
+import json
 import logging
+import zlib
 
 import numpy as np
 from hypothesis import strategies as st
@@ -32,7 +34,20 @@ RULE = (
     "Oracle = the array computed in NumPy from the case (einsum for Kruskal/Tucker, the first-listed-mode-fastest index "
     "formula for matricizations); exact equality for data movement, integer data exact / 64*n*eps*|.|-einsum bound "
     "for Kruskal, Tucker and sums.  Non-trivial: N>=2, >=2 distinct entries in the denoted array, and for "
-    "matricizations a split other than ([0],[1..N-1]) on a cubical shape."
+    "matricizations a split other than ([0],[1..N-1]) on a cubical shape.  "
+    "Round 2 - object states, dtypes, call sequences: every holder also comes in *derived states* reached through the "
+    "public API only (label prov-*/state-*): dense tensors grown by assignment (subscript array / region / single "
+    "element / several modes / a new trailing mode: C-ordered buffer, numpy.int64 shape entries), or returned by "
+    "permute, sptensor.full, tenmat.to_tensor, T+0; sparse tensors holding explicitly stored zeros (constructor, scale "
+    "by a factor with a 0, S*0), grown by assignment (subscripts / region with sparse right-hand side and array "
+    "ranges), from from_aggregator / to_sptensor / permute / -(-S), shape handed over as python ints / numpy ints / "
+    "array / inferred; Kruskal tensors after redistribute / arrange / fixsigns / extract / -(-K) / normalize (also into "
+    "one mode or all modes: C-ordered factors, unit weights).  Value dtypes: dense float64 / float32 / int64 / int32 / "
+    "uint8 / bool, sparse float64 / int64 / int32 / int8 / uint8, sums mixing integer-dtype and float parts, integer "
+    "data for the tenmat / sptenmat constructors.  Magnitudes: Kruskal weights / Tucker core / all sum parts scaled "
+    "by 1e-6 and 1e+6 (bounds are relative).  Sums may contain a part and its negation (exact cancellation).  Every "
+    "cell repeats its first conversion at the end (same result), and dense->sparse / sparse->dense convert once "
+    "more after the operand was edited in place by a public assignment (the new tensor must come out)."
 )
 ASSUMPTIONS = [
     "den(object) is reconstructed from public attributes only (vf/ref.py); the expected array comes from the case",
@@ -40,6 +55,13 @@ ASSUMPTIONS = [
     "number of summed terms (rank, core cells, or their sum over the parts)",
     "NaN/inf are not real numbers and are not generated; -0.0 == 0.0 accepted",
     "find()/to_sptensor(): the set of (subscript, value) pairs is checked, not their order",
+    "derived states are produced by public operations that are judged by their own properties; when such an operation "
+    "does not reproduce the tensor of the case (checked in NumPy) the cell falls back to the plain constructor",
+    "an sptensor *operand* holding explicitly stored zeros reports them in its own nnz (and scipy's nnz counts stored "
+    "entries by definition); every object converted from it must report the nonzero count of the array",
+    "float32 dense data: conversions move data, so the denoted array is exactly the float32 values; no float32 for "
+    "Kruskal / Tucker / sums (the rounding bounds are stated for float64)",
+    "Kruskal factor matrices must be float64 (the constructor rejects anything else): no integer dtypes there",
 ]
 
 
@@ -114,10 +136,19 @@ def dense_holder(draw, tier, shape=None, kinds=("int", "float", "wide"), **kw):
     data = _pattern(draw, ref.prod(shape), pattern, vkind)
     dtype = "float64"
     if vkind == "int":
-        dtype = draw(st.sampled_from(["float64", "int64", "bool"]))
+        dtype = draw(st.sampled_from(["float64", "int64", "bool", "int32", "uint8", "float32"]))
+        if dtype == "uint8":
+            data = [abs(v) for v in data]
+    elif vkind == "float":
+        # single precision: the values are rounded to float32 first; conversions only move data, so what the
+        # object denotes is exactly the float32 values
+        dtype = draw(st.sampled_from(["float64", "float64", "float32"]))
     layout = draw(st.sampled_from(["F", "C", "flat"]))
+    # provenance: how the object comes into being (constructor, or a public operation that leaves a state no
+    # constructor produces - see _derive_dense); prov_k picks the mode / cut of that derivation
+    prov = draw(st.sampled_from(DENSE_PROVS))
     return dict(holder="tensor", shape=list(shape), data=data, vkind=vkind, pattern=pattern, dtype=dtype,
-                layout=layout)
+                layout=layout, prov=prov, prov_k=draw(st.integers(0, 10**4)))
 
 
 def dense_array(case):
@@ -126,15 +157,115 @@ def dense_array(case):
     dt = case.get("dtype", "float64")
     if dt == "bool":
         B = A != 0
-    elif dt == "int64":
-        B = A.astype(np.int64)
-    else:
+    elif dt == "float64":
         B = A.copy()
+    else:
+        B = A.astype(dt)
     return B, B.astype(float)
+
+
+DENSE_PROVS = ["ctor", "ctor", "ctor", "grown-subs", "grown-region", "grown-elem", "grown-multi", "grown-order",
+               "permuted", "from-sparse", "from-tenmat", "arith"]
+GROWN_PROVS = [p for p in DENSE_PROVS if p.startswith("grown")]
+
+
+def _derive_dense(B, prov, k):
+    """A dense tensor equal to the array B, reached through a public operation instead of the constructor.
+
+    grown-*: built smaller, then enlarged by assignment (by a subscript array / a region / a single element and
+    then subscripts / several modes at once / a new trailing mode).  Growth leaves a C-ordered data buffer and
+    numpy.int64 entries in `shape`.  permuted / from-sparse / from-tenmat / arith: the result of another public
+    operation (permute of the permuted array, sptensor.full(), tenmat.to_tensor(), T + 0).  Only the public API is
+    used.  Returns None when the derivation is not applicable to this shape or does not reproduce B (growth and the
+    other operations are judged by their own properties; here only an object *in that state* is needed)."""
+    shape = B.shape
+    N = B.ndim
+    big = [m for m in range(N) if shape[m] >= 2]
+    F = np.asfortranarray
+    try:
+        if prov in ("grown-subs", "grown-region", "grown-elem"):
+            if not big:
+                return None
+            m = big[k % len(big)]
+            cut = 1 if prov == "grown-elem" else 1 + (k // 7) % (shape[m] - 1)
+            keep = shape[m] - cut
+            T = ttb.tensor(F(np.take(B, range(keep), axis=m)))
+            miss = [s_ for s_ in itertools.product(*[range(n) for n in shape]) if s_[m] >= keep]
+            if prov == "grown-region":
+                key = [slice(None)] * N
+                if cut == 1 and (k // 3) % 2:
+                    key[m] = shape[m] - 1
+                    T[tuple(key)] = np.take(B, shape[m] - 1, axis=m)
+                else:
+                    key[m] = slice(keep, shape[m])
+                    T[tuple(key)] = np.take(B, range(keep, shape[m]), axis=m)
+            else:
+                if prov == "grown-elem":
+                    corner = tuple(n - 1 for n in shape)
+                    T[corner] = B[corner].item()
+                    miss = [s_ for s_ in miss if s_ != corner]
+                if miss:
+                    T[np.array(miss, dtype=int)] = np.array([B[s_] for s_ in miss])
+        elif prov == "grown-multi":
+            if len(big) < 2:
+                return None
+            T = ttb.tensor(F(B[tuple(slice(0, n - 1) if n >= 2 else slice(None) for n in shape)]))
+            miss = [s_ for s_ in itertools.product(*[range(n) for n in shape])
+                    if any(s_[m] == shape[m] - 1 for m in big)]
+            T[np.array(miss, dtype=int)] = np.array([B[s_] for s_ in miss])
+        elif prov == "grown-order":
+            if N < 2:
+                return None
+            T = ttb.tensor(F(B[..., 0]))
+            for j in range(shape[-1]):
+                T[(slice(None),) * (N - 1) + (j,)] = B[..., j]
+        elif prov == "permuted":
+            if N < 2:
+                return None
+            perms = list(itertools.permutations(range(N)))[1:]
+            p = perms[k % len(perms)]
+            T = ttb.tensor(F(B.transpose(p))).permute(np.argsort(p))
+        elif prov == "from-sparse":
+            nz = np.argwhere(B != 0)
+            if len(nz) == 0:
+                T = ttb.sptensor(shape=shape).full()
+            else:
+                T = ttb.sptensor(nz, np.array([B[tuple(r)] for r in nz], dtype=float).reshape(-1, 1), shape).full()
+        elif prov == "from-tenmat":
+            rd, cd = list(range(N))[: k % (N + 1)], list(range(N))[k % (N + 1):]
+            T = ttb.tenmat(F(ref.matricize(B.astype(float), rd, cd)), np.array(rd, dtype=int), np.array(cd, dtype=int),
+                           shape).to_tensor()
+        elif prov == "arith":
+            T = ttb.tensor(F(B.astype(float))) + 0
+        else:
+            return None
+        if not isinstance(T, ttb.tensor) or tup(T.shape) != shape or not isinstance(T.data, np.ndarray):
+            return None
+        if T.data.shape != shape or not np.array_equal(np.asarray(T.data, dtype=float), B.astype(float)):
+            return None
+        return T
+    except Exception:  # noqa: BLE001
+        return None
+
+
+def dense_state(X):
+    """label: what distinguishes the object's state from a freshly constructed one"""
+    out = []
+    d = np.asarray(X.data)
+    if d.ndim >= 2 and not d.flags["F_CONTIGUOUS"]:
+        out.append("state-buffer-not-F")
+    if any(isinstance(n, np.integer) for n in X.shape):
+        out.append("state-numpy-int-shape")
+    return out or ["state-plain"]
 
 
 def build_dense(case):
     B, A = dense_array(case)
+    prov = case.get("prov", "ctor")
+    if prov != "ctor":
+        X = _derive_dense(B, prov, case.get("prov_k", 0))
+        if X is not None:
+            return X, A
     lay = case.get("layout", "F")
     if lay == "C":
         X = ttb.tensor(np.ascontiguousarray(B))
@@ -145,6 +276,12 @@ def build_dense(case):
     return X, A
 
 
+SPARSE_PROVS = ["ctor", "ctor", "ctor", "ctor-zeros", "ctor-zeros", "scaled-zeros", "scaled-zeros", "grown-subs",
+                "grown-region", "aggregated", "from-dense", "permuted", "double-neg"]
+SPARSE_DTYPES = ["float64", "float64", "int64", "int32", "int8", "uint8"]
+SHAPE_KINDS = ["int", "int", "npint", "array", "inferred"]
+
+
 @st.composite
 def sparse_holder(draw, tier, shape=None, kinds=("int", "float", "wide"), **kw):
     if shape is None:
@@ -152,30 +289,187 @@ def sparse_holder(draw, tier, shape=None, kinds=("int", "float", "wide"), **kw):
     vkind = draw(st.sampled_from(list(kinds)))
     pattern = draw(st.sampled_from(["none", "one", "some", "all"]))
     flat = _pattern(draw, ref.prod(shape), pattern, vkind)
-    entries = [(list(s), v) for s, v in zip(ref.all_subs_F(shape), flat) if v != 0.0]
+    dtype = "float64"
+    if vkind == "int":
+        dtype = draw(st.sampled_from(SPARSE_DTYPES))
+        if dtype == "uint8":
+            flat = [abs(v) for v in flat]
+    cellsF = ref.all_subs_F(shape)
+    entries = [(list(s), v) for s, v in zip(cellsF, flat) if v != 0.0]
     order = draw(st.sampled_from(["sorted", "reverse", "random"]))
     if order == "reverse":
         entries = entries[::-1]
     elif order == "random" and len(entries) > 1:
         p = draw(st.permutations(range(len(entries))))
         entries = [entries[i] for i in p]
-    dtype = "float64"
-    if vkind == "int":
-        dtype = draw(st.sampled_from(["float64", "int64"]))
+    # provenance (see _derive_sparse): zsubs = zero cells that are to be held as explicitly stored zeros, zpos =
+    # where they go in the stored order, junk = the nonzero values they hold before a public operation zeroes them
+    prov = draw(st.sampled_from(SPARSE_PROVS))
+    zero_cells = [list(s) for s, v in zip(cellsF, flat) if v == 0.0]
+    zsubs, zpos, junk = [], [], []
+    if prov in ("ctor-zeros", "scaled-zeros") and zero_cells:
+        nz = draw(st.integers(1, min(3, len(zero_cells))))
+        idx = draw(st.lists(st.integers(0, len(zero_cells) - 1), min_size=nz, max_size=nz, unique=True))
+        zsubs = [zero_cells[i] for i in idx]
+        zpos = [draw(st.integers(0, len(entries) + j)) for j in range(nz)]
+        junk = draw(st.lists(gen.values("int", nonzero=True).map(abs), min_size=nz, max_size=nz))
     return dict(holder="sptensor", shape=list(shape), subs=[e[0] for e in entries], vals=[e[1] for e in entries],
-                vkind=vkind, pattern=pattern, order=order, dtype=dtype)
+                vkind=vkind, pattern=pattern, order=order, dtype=dtype, prov=prov, prov_k=draw(st.integers(0, 10**4)),
+                shapekind=draw(st.sampled_from(SHAPE_KINDS)), zsubs=zsubs, zpos=zpos, junk=junk)
+
+
+def _shape_arg(shape, kind, subs):
+    """the shape as a caller may hand it over: python ints, numpy integers (e.g. the shape of a grown tensor), an
+    integer array, or left out (inferred from the subscripts) when the subscripts reach the last index of every mode"""
+    if kind == "npint":
+        return tuple(np.int64(n) for n in shape)
+    if kind == "array":
+        return np.array(shape, dtype=int)
+    if kind == "inferred":
+        if len(subs) and tuple(int(v) + 1 for v in np.max(np.asarray(subs), axis=0)) == tuple(shape):
+            return None
+        return tuple(np.int64(n) for n in shape)
+    return tuple(shape)
+
+
+def _sp(subs, vals, shape, dtype="float64"):
+    shape_t = shape if shape is None or isinstance(shape, np.ndarray) else tuple(shape)
+    if len(subs) == 0:
+        return ttb.sptensor(shape=shape_t)
+    N = len(subs[0])
+    return ttb.sptensor(np.array(subs, dtype=int).reshape(len(subs), N),
+                        np.array(vals, dtype=float).astype(dtype).reshape(-1, 1), shape_t)
+
+
+def _derive_sparse(case, A):
+    """A sparse tensor denoting A that is reached through a public path other than the plain constructor call.
+
+    ctor-zeros: the (documented as unvalidated) constructor given explicitly stored zeros; scaled-zeros: entries
+    that a public operation turned into stored zeros (scale by a factor holding a 0, S*0); grown-subs / grown-region:
+    built on a smaller shape and enlarged by assignment (subscript array / region with a sparse right-hand side and
+    array-valued ranges, which leaves numpy integers in `shape`); aggregated: from_aggregator; from-dense:
+    tensor.to_sptensor(); permuted: permute of the permuted tensor; double-neg: -(-S).  None when not applicable or
+    when the derivation does not reproduce A (those operations are judged elsewhere)."""
+    shape = tuple(case["shape"])
+    N = len(shape)
+    prov, k = case.get("prov", "ctor"), case.get("prov_k", 0)
+    subs, vals, dt = case["subs"], case["vals"], case.get("dtype", "float64")
+    try:
+        if prov == "ctor-zeros":
+            if not case["zsubs"]:
+                return None
+            su, va = [list(x) for x in subs], list(vals)
+            for z, pos in zip(case["zsubs"], case["zpos"]):
+                su.insert(pos, list(z)), va.insert(pos, 0.0)
+            S = _sp(su, va, _shape_arg(shape, case.get("shapekind"), su), dt)
+        elif prov == "scaled-zeros":
+            if not case["zsubs"]:
+                return None
+            su, va = [list(x) for x in subs], list(vals)
+            for z, pos, j in zip(case["zsubs"], case["zpos"], case["junk"]):
+                su.insert(pos, list(z)), va.insert(pos, float(j))
+            S0 = _sp(su, va, shape, dt)
+            if not subs and k % 2:
+                S = S0 * 0
+            else:
+                # a slice holding only junk can be zeroed by a vector factor; otherwise an all-modes tensor factor
+                zs = {tuple(z) for z in case["zsubs"]}
+                m, i = k % N, case["zsubs"][0][k % N]
+                if k % 3 and not np.any(np.take(A, i, axis=m)):
+                    f = np.ones(shape[m])
+                    f[i] = 0.0
+                    S = S0.scale(f, m)
+                    # junk outside the slice is still there: zero it with the tensor factor below
+                    rest = [z for z in zs if z[m] != i]
+                else:
+                    S, rest = S0, list(zs)
+                if rest:
+                    M = np.ones(shape)
+                    for z in rest:
+                        M[tuple(z)] = 0.0
+                    S = S.scale(ttb.tensor(np.asfortranarray(M)), np.arange(N))
+        elif prov in ("grown-subs", "grown-region"):
+            reach = [m for m in range(N) if shape[m] >= 2 and any(s_[m] == shape[m] - 1 for s_ in subs)]
+            if prov == "grown-region":
+                reach = [m for m in range(N) if shape[m] >= 2]
+            if not reach:
+                return None
+            m = reach[k % len(reach)]
+            keep = shape[m] - (1 + (k // 7) % (shape[m] - 1))
+            small = tuple(keep if d == m else n for d, n in enumerate(shape))
+            ins = [(s_, v) for s_, v in zip(subs, vals) if s_[m] < keep]
+            out = [(s_, v) for s_, v in zip(subs, vals) if s_[m] >= keep]
+            S = _sp([e[0] for e in ins], [e[1] for e in ins], small, dt)
+            if prov == "grown-subs":
+                if not out or not any(e[0][m] == shape[m] - 1 for e in out):
+                    return None
+                S[np.array([e[0] for e in out], dtype=int).reshape(len(out), N)] = np.array(
+                    [e[1] for e in out], dtype=float).reshape(-1, 1)
+            else:
+                rshape = tuple(shape[m] - keep if d == m else n for d, n in enumerate(shape))
+                R = _sp([[v - keep if d == m else v for d, v in enumerate(e[0])] for e in out], [e[1] for e in out],
+                        rshape, dt)
+                key = tuple(np.arange(keep, shape[m]) if d == m else (slice(0, n) if (k // 5) % 2 else np.arange(n))
+                            for d, n in enumerate(shape))
+                S[key] = R
+        elif prov == "aggregated":
+            if not subs:
+                return None
+            S = ttb.sptensor.from_aggregator(np.array(subs, dtype=int).reshape(len(subs), N),
+                                             np.array(vals, dtype=float).astype(dt).reshape(-1, 1), shape)
+        elif prov == "from-dense":
+            S = ttb.tensor(np.asfortranarray(A.astype(dt))).to_sptensor()
+        elif prov == "permuted":
+            if N < 2:
+                return None
+            perms = list(itertools.permutations(range(N)))[1:]
+            p = perms[k % len(perms)]
+            S = _sp([[s_[d] for d in p] for s_ in subs], vals, tuple(shape[d] for d in p), dt).permute(np.argsort(p))
+        elif prov == "double-neg":
+            if dt == "uint8":
+                return None
+            S = -(-_sp(subs, vals, shape, dt))
+        else:
+            return None
+        if not isinstance(S, ttb.sptensor) or ref.sptensor_problems(S, allow_explicit_zero=True):
+            return None
+        if tup(S.shape) != shape or not ref.same_exact(ref.den(S), A):
+            return None
+        return S
+    except Exception:  # noqa: BLE001
+        return None
+
+
+def sparse_state(S):
+    out = []
+    vals = np.asarray(S.vals)
+    if vals.size and (vals == 0).any():
+        out.append("state-explicit-zero")
+    if any(isinstance(n, np.integer) for n in S.shape):
+        out.append("state-numpy-int-shape")
+    if vals.size and np.issubdtype(vals.dtype, np.integer):
+        out.append("state-int-vals-" + ("unsigned" if np.issubdtype(vals.dtype, np.unsignedinteger) else "signed"))
+    return out or ["state-plain"]
+
+
+def has_explicit_zero(S):
+    vals = np.asarray(S.vals)
+    return bool(vals.size and (vals == 0).any())
 
 
 def build_sparse(case):
     shape = tuple(case["shape"])
     A = gen.dense_of_sparse_case(case)
-    if len(case["subs"]) == 0:
-        return ttb.sptensor(shape=shape), A
-    subs = np.array(case["subs"], dtype=int).reshape(len(case["subs"]), len(shape))
-    vals = np.array(case["vals"], dtype=float).reshape(-1, 1)
-    if case.get("dtype") == "int64":
-        vals = vals.astype(np.int64)
-    return ttb.sptensor(subs, vals, shape), A
+    if case.get("prov", "ctor") != "ctor":
+        S = _derive_sparse(case, A)
+        if S is not None:
+            return S, A
+    return _sp(case["subs"], case["vals"], _shape_arg(shape, case.get("shapekind", "int"), case["subs"]),
+               case.get("dtype", "float64")), A
+
+
+def _sparse_labels(ctx, case, S):
+    ctx.label("prov-" + case.get("prov", "ctor"), *sparse_state(S), "shapearg-" + case.get("shapekind", "int"))
 
 
 def _stage(ctx, what, call, check=None):
@@ -196,6 +490,10 @@ def _labels(ctx, case):
         ctx.label("stored-" + case["order"])
     if "layout" in case:
         ctx.label("layout-" + case["layout"], "dtype-" + case["dtype"])
+
+
+def _dense_labels(ctx, case, X):
+    ctx.label("prov-" + case.get("prov", "ctor"), *dense_state(X))
 
 
 def _check_sptensor(ctx, S, A, what, exact_nnz=True):
@@ -244,6 +542,7 @@ def _check_ndarray(ctx, a, A, what, cmp=None):
 def dense_to_sparse(ctx, case):
     X, A = build_dense(case)
     _labels(ctx, case)
+    _dense_labels(ctx, case, X)
     ctx.nt = _nt_array(A)
     # what the dense holder itself reports
     ctx.check(tup(X.shape) == A.shape and X.ndims == A.ndim, "tensor-shape")
@@ -274,8 +573,24 @@ def dense_to_sparse(ctx, case):
         _stage(ctx, "sptensor.full", S.full, lambda D: _check_tensor(ctx, D, A, "to_sptensor.full"))
         _stage(ctx, "sptensor.to_tensor", S.to_tensor, lambda D: _check_tensor(ctx, D, A, "to_sptensor.to_tensor"))
         _stage(ctx, "sptensor.double", S.double, lambda a: _check_ndarray(ctx, a, A, "to_sptensor.double"))
+    # a second call on the same object gives the same tensor (the k-th call depends only on its arguments)
+    _stage(ctx, "tensor.to_sptensor-again", X.to_sptensor, lambda S: _check_sptensor(ctx, S, A, "to_sptensor-again"))
     # the operand is untouched by the conversions
     ctx.check(ref.same_exact(ref.den(X), A), "operand-unchanged")
+    # ... and after the object is edited in place through the public API, the same conversion gives the new tensor
+    # (no result may be remembered from the earlier calls)
+    if A.size and A.dtype != bool and case.get("dtype") != "bool":
+        pos = tuple(int(i) for i in np.unravel_index(case.get("prov_k", 0) % A.size, A.shape))
+        A2 = A.copy()
+        A2[pos] = 0.0 if A[pos] != 0 else 3.0
+        try:
+            with ctx.sut("tensor.__setitem__"):
+                X[np.array([pos], dtype=int)] = float(A2[pos])
+        except Abort:
+            return
+        if ref.same_exact(ref.den(X), A2) and tup(X.shape) == A.shape:  # assignment itself is judged by C04
+            _stage(ctx, "tensor.to_sptensor-after-edit", X.to_sptensor,
+                   lambda S: _check_sptensor(ctx, S, A2, "to_sptensor-after-edit"))
 
 
 # --------------------------------------------------------------------------
@@ -287,10 +602,16 @@ def dense_to_sparse(ctx, case):
 def sparse_to_dense(ctx, case):
     S, A = build_sparse(case)
     _labels(ctx, case)
+    _sparse_labels(ctx, case, S)
     ctx.nt = _nt_array(A)
     ctx.check(tup(S.shape) == A.shape and S.ndims == A.ndim, "sptensor-shape")
     n = len(case["subs"])
-    _stage(ctx, "sptensor.nnz", lambda: S.nnz, lambda nz: ctx.check(nz == n, "sptensor-nnz", f"{nz} vs {n}"))
+    # an operand holding explicitly stored zeros counts them (it is an input here, not a conversion result); every
+    # object converted *from* it must report the nonzero count of the array
+    ez = has_explicit_zero(S)
+    stored = n + (len(case["zsubs"]) if ez else 0)
+    _stage(ctx, "sptensor.nnz", lambda: S.nnz,
+           lambda nz: ctx.check(nz == stored, "sptensor-nnz", f"{nz} vs {stored}"))
     D1 = _stage(ctx, "sptensor.full", S.full, lambda D: _check_tensor(ctx, D, A, "full"))
     _stage(ctx, "sptensor.to_tensor", S.to_tensor, lambda D: _check_tensor(ctx, D, A, "to_tensor"))
     _stage(ctx, "sptensor.double", S.double, lambda a: _check_ndarray(ctx, a, A, "double"))
@@ -303,10 +624,25 @@ def sparse_to_dense(ctx, case):
                         type(m).__name__)
             ctx.check(tup(m.shape) == A.shape, "spmatrix-shape", m.shape)
             ctx.check(ref.same_exact(np.asarray(m.toarray()), A), "spmatrix-denotes")
-            ctx.check(int(m.nnz) == n, "spmatrix-nnz", m.nnz)
+            # scipy's nnz is by its own definition the number of *stored* entries
+            ctx.check(int(m.nnz) == stored, "spmatrix-nnz", m.nnz)
 
         _stage(ctx, "sptensor.spmatrix", S.spmatrix, chk_sp)
-    ctx.check(ref.same_exact(ref.den(S), A) and S.nnz == len(case["subs"]), "operand-unchanged")
+    _stage(ctx, "sptensor.full-again", S.full, lambda D: _check_tensor(ctx, D, A, "full-again"))
+    ctx.check(ref.same_exact(ref.den(S), A) and S.nnz == stored, "operand-unchanged")
+    # edited in place through the public API, the same conversion gives the new tensor
+    if A.size and not np.issubdtype(np.asarray(S.vals).dtype, np.unsignedinteger):
+        pos = tuple(int(i) for i in np.unravel_index(case.get("prov_k", 0) % A.size, A.shape))
+        A2 = A.copy()
+        A2[pos] = 0.0 if A[pos] != 0 else 3.0
+        try:
+            with ctx.sut("sptensor.__setitem__"):
+                S[np.array([pos], dtype=int)] = float(A2[pos])
+        except Abort:
+            return
+        if tup(S.shape) == A.shape and not ref.sptensor_problems(S, allow_explicit_zero=True) and ref.same_exact(
+                ref.den(S), A2):  # assignment itself is judged by C04
+            _stage(ctx, "sptensor.full-after-edit", S.full, lambda D: _check_tensor(ctx, D, A2, "full-after-edit"))
 
 
 # --------------------------------------------------------------------------
@@ -314,10 +650,91 @@ def sparse_to_dense(ctx, case):
 # --------------------------------------------------------------------------
 
 
+KT_PROVS = ["ctor", "ctor", "redistribute", "arrange-perm", "fixsigns", "extract", "negneg", "normalize",
+            "normalize-mode", "normalize-all"]
+KT_EXACT = {"ctor", "redistribute", "arrange-perm", "fixsigns", "extract", "negneg"}  # no rounding for integer data
+SCALES = [1.0, 1.0, 1e-6, 1e6]
+
+
+@st.composite
+def kt_case(draw, tier, **kw):
+    """gen.ktensor_case + provenance (a public operation that leaves the same Kruskal tensor in another state:
+    weights absorbed into a factor, components reordered, columns rescaled ...) + a scale on the weights"""
+    c = draw(gen.ktensor_case(tier, **kw))
+    c["kprov"] = draw(st.sampled_from(KT_PROVS))
+    c["prov_k"] = draw(st.integers(0, 10**4))
+    c["wscale"] = draw(st.sampled_from(SCALES))
+    return c
+
+
+def _kt_weights(case):
+    return np.array(case["weights"], dtype=float) * float(case.get("wscale", 1.0))
+
+
+def _kt_exact(case):
+    return case["vkind"] == "int" and case.get("wscale", 1.0) >= 1.0 and case.get("kprov", "ctor") in KT_EXACT
+
+
 def _kt_ref(case):
-    w = np.array(case["weights"], dtype=float)
+    w = _kt_weights(case)
     fm = [np.array(f, dtype=float).reshape(n, case["rank"]) for f, n in zip(case["factors"], case["shape"])]
     return ref.den_kruskal(w, fm), ref.abs_kruskal(w, fm)
+
+
+def build_kt(case):
+    """ktensor of the case in the state its provenance asks for (falls back to the constructor when the operation
+    does not apply or does not reproduce the tensor within the bound: those operations are judged elsewhere)"""
+    fm = [np.array(f, dtype=float).reshape(n, case["rank"]) for f, n in zip(case["factors"], case["shape"])]
+    w = _kt_weights(case)
+    prov, k = case.get("kprov", "ctor"), case.get("prov_k", 0)
+    N, R = len(fm), case["rank"]
+    if prov != "ctor":
+        try:
+            K = ttb.ktensor([f.copy() for f in fm], w.copy())
+            if prov == "redistribute":
+                K.redistribute(k % N)
+            elif prov == "arrange-perm":
+                perms = list(itertools.permutations(range(R)))
+                K.arrange(permutation=np.array(perms[k % len(perms)], dtype=int))
+            elif prov == "fixsigns":
+                K.fixsigns()
+            elif prov == "extract":
+                perms = list(itertools.permutations(range(R)))
+                K = K.extract(np.array(perms[k % len(perms)], dtype=int))
+            elif prov == "negneg":
+                K = -(-K)
+            elif prov == "normalize":
+                K.normalize(sort=bool(k % 2))
+            elif prov == "normalize-mode":
+                K.normalize(weight_factor=k % N)
+            elif prov == "normalize-all":
+                K.normalize(weight_factor="all")
+            A, B = ref.den_kruskal(w, fm), ref.abs_kruskal(w, fm)
+            if isinstance(K, ttb.ktensor) and tup(K.shape) == A.shape and K.ncomponents == R:
+                d = ref.den(K)
+                if ref.same_exact(d, A) if _kt_exact(case) else ref.same_bound(d, A, B, R):
+                    return K
+        except Exception:  # noqa: BLE001
+            pass
+    return ttb.ktensor(fm, w)
+
+
+def kt_state(K):
+    out = []
+    if any(f.ndim == 2 and min(f.shape) >= 2 and not f.flags["F_CONTIGUOUS"] for f in K.factor_matrices):
+        out.append("state-factor-not-F")
+    if np.all(np.asarray(K.weights) == 1):
+        out.append("state-unit-weights")
+    return out or ["state-plain"]
+
+
+def _kt_snapshot(K):
+    return np.array(K.weights, copy=True), [np.array(f, copy=True) for f in K.factor_matrices]
+
+
+def _kt_unchanged(K, snap):
+    return np.array_equal(K.weights, snap[0]) and len(K.factor_matrices) == len(snap[1]) and all(
+        np.array_equal(f, g) for f, g in zip(K.factor_matrices, snap[1]))
 
 
 def _cmp_sum(A, B, nterms, exact):
@@ -326,20 +743,22 @@ def _cmp_sum(A, B, nterms, exact):
     return lambda d: ref.same_bound(d, A, B, nterms)
 
 
-@cell("C01/ktensor/full", strategy=lambda tier: gen.ktensor_case(tier, min_order=1), quick=500, thorough=10000)
+@cell("C01/ktensor/full", strategy=lambda tier: kt_case(tier, min_order=1), quick=500, thorough=10000)
 def ktensor_full(ctx, case):
     A, B = _kt_ref(case)
-    K = gen.build_ktensor(case)
-    ctx.label(*gen.shape_classes(case["shape"]), f"rank{case['rank']}", "v-" + case["vkind"])
+    K = build_kt(case)
+    snap = _kt_snapshot(K)
+    ctx.label(*gen.shape_classes(case["shape"]), f"rank{case['rank']}", "v-" + case["vkind"],
+              "prov-" + case.get("kprov", "ctor"), *kt_state(K), f"wscale-{case.get('wscale', 1.0):g}")
     ctx.nt = _nt_array(A)
-    cmp = _cmp_sum(A, B, case["rank"], case["vkind"] == "int")
+    cmp = _cmp_sum(A, B, case["rank"], _kt_exact(case))
     ctx.check(tup(K.shape) == A.shape and K.ndims == A.ndim, "ktensor-shape", K.shape)
     _stage(ctx, "ktensor.full", K.full, lambda D: _check_tensor(ctx, D, A, "full", cmp))
     _stage(ctx, "ktensor.to_tensor", K.to_tensor, lambda D: _check_tensor(ctx, D, A, "to_tensor", cmp))
     _stage(ctx, "ktensor.double", K.double, lambda a: _check_ndarray(ctx, a, A, "double", cmp))
-    ok = np.array_equal(K.weights, np.array(case["weights"])) and all(
-        np.array_equal(f, np.array(g, dtype=float).reshape(f.shape)) for f, g in zip(K.factor_matrices, case["factors"]))
-    ctx.check(ok, "operand-unchanged")
+    # the k-th conversion depends only on the object: a second call gives the same tensor
+    _stage(ctx, "ktensor.full-again", K.full, lambda D: _check_tensor(ctx, D, A, "full-again", cmp))
+    ctx.check(_kt_unchanged(K, snap), "operand-unchanged")
 
 
 # --------------------------------------------------------------------------
@@ -347,8 +766,16 @@ def ktensor_full(ctx, case):
 # --------------------------------------------------------------------------
 
 
+def _tt_core(case):
+    return gen.arr_F(case["cshape"], case["core"]) * float(case.get("cscale", 1.0))
+
+
+def _tt_exact(case):
+    return case["vkind"] == "int" and case.get("cscale", 1.0) >= 1.0
+
+
 def _tt_ref(case):
-    core = gen.arr_F(case["cshape"], case["core"])
+    core = _tt_core(case)
     fm = [np.array(f, dtype=float).reshape(s, c) for f, s, c in zip(case["factors"], case["shape"], case["cshape"])]
     return ref.den_tucker(core, fm), ref.den_tucker(np.abs(core), [np.abs(f) for f in fm])
 
@@ -364,6 +791,9 @@ def _ttensor_case(draw, tier):
         c["core_perm"] = list(draw(st.permutations(range(n)))) if n > 1 else list(range(n))
     # factor matrices handed over as scipy COO matrices (the constructor documents both); zero-heavy so that the
     # sparse core's ttm result stays sparse and full() has to densify it
+    c["cscale"] = draw(st.sampled_from(SCALES))
+    c["core_prov"] = draw(st.sampled_from(["ctor", "ctor"] + GROWN_PROVS))
+    c["prov_k"] = draw(st.integers(0, 10**4))
     c["sparse_factors"] = draw(st.booleans()) and draw(st.booleans())
     if c["sparse_factors"]:
         for f in c["factors"]:
@@ -378,14 +808,18 @@ def _ttensor_case(draw, tier):
 def build_ttensor(case):
     from scipy import sparse
 
-    core = gen.arr_F(case["cshape"], case["core"])
+    core = _tt_core(case)
     fm = [np.array(f, dtype=float).reshape(s, c) for f, s, c in zip(case["factors"], case["shape"], case["cshape"])]
     if case.get("sparse_factors"):
         fm = [sparse.coo_matrix(f) for f in fm]
     if case.get("sparse_core"):
         C = gen.build_sptensor(gen.sparse_case_from_dense(core, case.get("core_perm")))
     else:
-        C = ttb.tensor(core.copy(order="F"), tuple(case["cshape"]))
+        C = None
+        if case.get("core_prov", "ctor") != "ctor":
+            C = _derive_dense(core, case["core_prov"], case.get("prov_k", 0))
+        if C is None:
+            C = ttb.tensor(core.copy(order="F"), tuple(case["cshape"]))
     return ttb.ttensor(C, fm)
 
 
@@ -396,14 +830,18 @@ def ttensor_full(ctx, case):
     ctx.label(*gen.shape_classes(case["shape"]), "sparse-core" if case["sparse_core"] else "dense-core",
               "v-" + case["vkind"], "core-" + ("1" if ref.prod(case["cshape"]) == 1 else "n"),
               "coo-factors" if case.get("sparse_factors") else "ndarray-factors")
+    if not case["sparse_core"]:
+        ctx.label("core-" + ",".join(dense_state(T.core)))
     ctx.nt = _nt_array(A)
-    cmp = _cmp_sum(A, B, ref.prod(case["cshape"]), case["vkind"] == "int")
+    ctx.label(f"cscale-{case.get('cscale', 1.0):g}")
+    cmp = _cmp_sum(A, B, ref.prod(case["cshape"]), _tt_exact(case))
     ctx.check(tup(T.shape) == A.shape and T.ndims == A.ndim, "ttensor-shape", T.shape)
     _stage(ctx, "ttensor.full", T.full, lambda D: _check_tensor(ctx, D, A, "full", cmp))
     _stage(ctx, "ttensor.to_tensor", T.to_tensor, lambda D: _check_tensor(ctx, D, A, "to_tensor", cmp))
     _stage(ctx, "ttensor.double", T.double, lambda a: _check_ndarray(ctx, a, A, "double", cmp))
     _stage(ctx, "ttensor.reconstruct", T.reconstruct, lambda D: _check_tensor(ctx, D, A, "reconstruct", cmp))
-    ctx.check(ref.same_exact(ref.den(T.core), gen.arr_F(case["cshape"], case["core"])), "operand-unchanged")
+    _stage(ctx, "ttensor.full-again", T.full, lambda D: _check_tensor(ctx, D, A, "full-again", cmp))
+    ctx.check(ref.same_exact(ref.den(T.core), _tt_core(case)), "operand-unchanged")
 
 
 # --------------------------------------------------------------------------
@@ -413,8 +851,9 @@ def ttensor_full(ctx, case):
 
 @st.composite
 def _kt_part(draw, tier, shape, vkind):
-    c = draw(gen.ktensor_case(tier, kinds=(vkind,), shape=shape, max_rank=3))
+    c = draw(kt_case(tier, kinds=(vkind,), shape=shape, max_rank=3))
     c["holder"] = "ktensor"
+    c["wscale"] = 1.0  # the sum case scales all of its parts together
     return c
 
 
@@ -436,18 +875,63 @@ def _sum_case(draw, tier):
     parts = []
     for _ in range(k):
         kind = draw(st.sampled_from(["tensor", "sptensor", "ktensor", "ttensor"]))
+        # a dense / sparse part may hold integer-valued data in an integer dtype, also next to fractional parts
+        as_int = kind in ("tensor", "sptensor") and draw(st.integers(0, 2)) == 0
         if kind == "tensor":
-            p = draw(dense_holder(tier, shape=shape, kinds=(vkind,)))
-            p["dtype"], p["layout"] = "float64", "F"
+            p = draw(dense_holder(tier, shape=shape, kinds=("int",) if as_int else (vkind,)))
+            p["dtype"] = "int64" if as_int else "float64"
+            p["data"] = [float(v) for v in p["data"]] if as_int else p["data"]
+            p["layout"] = "F"
         elif kind == "sptensor":
-            p = draw(sparse_holder(tier, shape=shape, kinds=(vkind,)))
-            p["dtype"] = "float64"
+            p = draw(sparse_holder(tier, shape=shape, kinds=("int",) if as_int else (vkind,)))
+            p["dtype"] = "int64" if as_int else "float64"
+            p["vals"] = [float(v) for v in p["vals"]] if as_int else p["vals"]
         elif kind == "ktensor":
             p = draw(_kt_part(tier, shape, vkind))
         else:
             p = draw(_tt_part(tier, shape, vkind))
         parts.append(p)
-    return dict(shape=list(shape), vkind=vkind, parts=parts, via_add=draw(st.booleans()))
+    # a part may be followed by its own negation (exact cancellation: the sum has fewer nonzeros than its parts)
+    cancel = draw(st.integers(0, 3)) == 0
+    if cancel:
+        j = draw(st.integers(0, len(parts) - 1))
+        parts.insert(draw(st.integers(j + 1, len(parts))), _negated(parts[j]))
+    # one scale for all parts (the property is scale-free; the bounds are relative to the magnitudes)
+    scale = draw(st.sampled_from(SCALES))
+    if any(p.get("dtype") == "int64" for p in parts):
+        scale = 1.0 if scale < 1.0 else scale  # integer dtypes hold integers
+    if scale != 1.0:
+        parts = [_scaled(p, scale) for p in parts]
+    return dict(shape=list(shape), vkind=vkind, parts=parts, via_add=draw(st.booleans()), scale=scale, cancel=cancel)
+
+
+def _negated(p):
+    q = json.loads(json.dumps(p))
+    h = q["holder"]
+    if h == "tensor":
+        q["data"] = [-v for v in q["data"]]
+    elif h == "sptensor":
+        q["vals"] = [-v for v in q["vals"]]
+        q["prov"] = "ctor" if q.get("prov") in ("ctor-zeros", "scaled-zeros") else q.get("prov", "ctor")
+    elif h == "ktensor":
+        q["weights"] = [-v for v in q["weights"]]
+    else:
+        q["core"] = [-v for v in q["core"]]
+    return q
+
+
+def _scaled(p, scale):
+    q = dict(p)
+    h = q["holder"]
+    if h == "tensor":
+        q["data"] = [v * scale for v in q["data"]]
+    elif h == "sptensor":
+        q["vals"] = [v * scale for v in q["vals"]]
+    elif h == "ktensor":
+        q["wscale"] = scale
+    else:
+        q["cscale"] = scale
+    return q
 
 
 def _build_part(p):
@@ -461,9 +945,14 @@ def _build_part(p):
         return X, A, np.abs(A), 1
     if h == "ktensor":
         A, B = _kt_ref(p)
-        return gen.build_ktensor(p), A, B, p["rank"]
+        return build_kt(p), A, B, p["rank"]
     A, B = _tt_ref(p)
     return build_ttensor(p), A, B, ref.prod(p["cshape"])
+
+
+def _sum_exact(case):
+    return case["vkind"] == "int" and case.get("scale", 1.0) >= 1.0 and all(
+        p.get("kprov", "ctor") in KT_EXACT for p in case["parts"] if p["holder"] == "ktensor")
 
 
 @cell("C01/sumtensor/full", strategy=_sum_case, quick=400, thorough=8000)
@@ -474,8 +963,17 @@ def sumtensor_full(ctx, case):
     nterms = sum(b[3] for b in built) + len(built)
     kinds = [p["holder"] for p in case["parts"]]
     ctx.label(*gen.shape_classes(case["shape"]), f"parts{len(kinds)}", "first-" + kinds[0], *sorted(set(kinds)))
+    dts = {p.get("dtype", "float64") for p in case["parts"]}
+    ctx.label("part-dtypes-" + ("mixed" if len(dts) > 1 else dts.pop()),
+              "first-part-" + case["parts"][0].get("dtype", "float64"))
+    for p, b in zip(case["parts"], built):
+        if p["holder"] == "tensor":
+            ctx.label("dense-part-" + ",".join(dense_state(b[0])))
+        elif p["holder"] == "sptensor":
+            ctx.label("sparse-part-" + ",".join(sparse_state(b[0])))
     ctx.nt = _nt_array(A) and len(kinds) >= 2
-    cmp = _cmp_sum(A, B, nterms, case["vkind"] == "int")
+    ctx.label(f"scale-{case.get('scale', 1.0):g}", "with-cancelling-part" if case.get("cancel") else "no-cancelling-part")
+    cmp = _cmp_sum(A, B, nterms, _sum_exact(case))
     with ctx.sut("sumtensor"):
         if case["via_add"] and len(built) >= 2:
             Sm = ttb.sumtensor([built[0][0]])
@@ -488,6 +986,7 @@ def sumtensor_full(ctx, case):
     _stage(ctx, "sumtensor.full", Sm.full, lambda D: _check_tensor(ctx, D, A, "full", cmp))
     _stage(ctx, "sumtensor.to_tensor", Sm.to_tensor, lambda D: _check_tensor(ctx, D, A, "to_tensor", cmp))
     _stage(ctx, "sumtensor.double", Sm.double, lambda a: _check_ndarray(ctx, a, A, "double", cmp))
+    _stage(ctx, "sumtensor.full-again", Sm.full, lambda D: _check_tensor(ctx, D, A, "full-again", cmp))
     # converting must not change the parts
     ok = all(ref.same_bound(ref.den(p), b[1], b[2] + 1.0, b[3]) for p, b in zip(Sm.parts, built))
     ctx.check(ok, "parts-unchanged")
@@ -608,6 +1107,7 @@ def _tenmat_body(ctx, case):
     spec = case["split"]
     rd, cd = expected_split(N, spec)
     _labels(ctx, case)
+    _dense_labels(ctx, case, X)
     _split_labels(ctx, spec, rd, cd)
     ctx.nt = _nt_array(A) and _nt_split(case["shape"], rd, cd)
     kw = split_kwargs(spec)
@@ -621,6 +1121,9 @@ def _tenmat_body(ctx, case):
         _stage(ctx, "tenmat.ctranspose.to_tensor", Mt.to_tensor,
                lambda D: _check_tensor(ctx, D, A, "ctranspose.to_tensor"))
     _stage(ctx, "tenmat.copy", M.copy, lambda Mc: _check_tenmat(ctx, Mc, A, rd, cd, "tenmat.copy"))
+    if case.get("copy", True):
+        _stage(ctx, "tensor.to_tenmat-again", lambda: X.to_tenmat(**kw),
+               lambda M2: _check_tenmat(ctx, M2, A, rd, cd, "to_tenmat-again"))
     # last: the no-copy form may share memory with M, so nothing is read from M afterwards
     _stage(ctx, "tenmat.to_tensor-nocopy", lambda: M.to_tensor(copy=False),
            lambda D: _check_tensor(ctx, D, A, "tenmat.to_tensor-nocopy"))
@@ -645,7 +1148,7 @@ def _enum_splits(tier):
     shapes = list(ENUM_SHAPES_QUICK) + (ENUM_SHAPES_THOROUGH if tier == "thorough" else [])
     for sh in shapes:
         for spec in all_split_specs(len(sh)):
-            for holder in ("tensor", "sptensor"):
+            for holder in ("tensor", "tensor-grown", "sptensor"):
                 yield dict(shape=list(sh), split=spec, holder=holder)
 
 
@@ -654,9 +1157,12 @@ def split_enumerated(ctx, case):
     """every way of requesting every ordered mode split of fixed shapes, dense and sparse"""
     sh = case["shape"]
     data = _enum_data(sh)
-    if case["holder"] == "tensor":
+    if case["holder"] in ("tensor", "tensor-grown"):
+        # the grown holder: the way of growing is a fixed function of the request (deterministic enumeration)
+        k = zlib.crc32(repr((sh, sorted(case["split"].items()))).encode())
+        prov = GROWN_PROVS[k % len(GROWN_PROVS)] if case["holder"] == "tensor-grown" else "ctor"
         _tenmat_body(ctx, dict(holder="tensor", shape=sh, data=data, vkind="int", pattern="some", dtype="float64",
-                               layout="F", split=case["split"], copy=True))
+                               layout="F", split=case["split"], copy=True, prov=prov, prov_k=k // 8))
     else:
         sc = gen.sparse_case_from_dense(gen.arr_F(sh, data))
         sc["subs"], sc["vals"] = sc["subs"][::-1], sc["vals"][::-1]
@@ -668,7 +1174,11 @@ def split_enumerated(ctx, case):
 @st.composite
 def _tenmat_ctor_case(draw, tier):
     c = draw(dense_holder(tier, min_order=1, kinds=("int", "float", "wide")))
-    c["dtype"], c["layout"] = "float64", draw(st.sampled_from(["F", "C"]))
+    c["dtype"] = draw(st.sampled_from(["float64", "int64", "int32"])) if c["vkind"] == "int" else "float64"
+    if c["dtype"] == "float64" and c["vkind"] == "int":
+        c["data"] = [float(v) for v in c["data"]]
+    c["layout"] = draw(st.sampled_from(["F", "C"]))
+    c["prov"] = "ctor"
     N = len(c["shape"])
     r, cdims = draw(gen.ordered_partition(N))
     form = draw(st.sampled_from(["both", "both", "rdims", "cdims", "vector"]))
@@ -696,10 +1206,11 @@ def tenmat_constructor(ctx, case):
     ctx.label("ctor-" + case["ctor"])
     ctx.nt = _nt_array(A) and _nt_split(case["shape"], rd, cd)
     E = ref.matricize(A, rd, cd)
-    data = np.ascontiguousarray(E) if case["layout"] == "C" else np.asfortranarray(E)
+    Ed = E.astype(case.get("dtype", "float64"))
+    data = np.ascontiguousarray(Ed) if case["layout"] == "C" else np.asfortranarray(Ed)
     kw = split_kwargs(spec)
     if case["ctor"] == "vector":
-        data = E.reshape(-1).copy()
+        data = Ed.reshape(-1).copy()
         kw = dict(cdims=kw["cdims"])
     with ctx.sut("tenmat()"):
         M = ttb.tenmat(data, tshape=tuple(case["shape"]), copy=case["copy"], **kw)
@@ -709,7 +1220,7 @@ def tenmat_constructor(ctx, case):
 
 @st.composite
 def _kt_tenmat_case(draw, tier):
-    c = draw(gen.ktensor_case(tier, min_order=1))
+    c = draw(kt_case(tier, min_order=1))
     c["split"] = draw(split_spec(len(c["shape"])))
     return c
 
@@ -717,13 +1228,14 @@ def _kt_tenmat_case(draw, tier):
 @cell("C01/tenmat/ktensor", strategy=_kt_tenmat_case, quick=300, thorough=6000)
 def tenmat_ktensor(ctx, case):
     A, B = _kt_ref(case)
-    K = gen.build_ktensor(case)
+    K = build_kt(case)
     spec = case["split"]
     rd, cd = expected_split(A.ndim, spec)
-    ctx.label(*gen.shape_classes(case["shape"]), "v-" + case["vkind"])
+    ctx.label(*gen.shape_classes(case["shape"]), "v-" + case["vkind"], "prov-" + case.get("kprov", "ctor"),
+              *kt_state(K), f"wscale-{case.get('wscale', 1.0):g}")
     _split_labels(ctx, spec, rd, cd)
     ctx.nt = _nt_array(A) and _nt_split(case["shape"], rd, cd)
-    exact = case["vkind"] == "int"
+    exact = _kt_exact(case)
 
     def cmp(got, r, c):
         E = ref.matricize(A, r, c)
@@ -792,15 +1304,19 @@ def _sptenmat_body(ctx, case):
     spec = case["split"]
     rd, cd = expected_split(N, spec)
     _labels(ctx, case)
+    _sparse_labels(ctx, case, S)
     _split_labels(ctx, spec, rd, cd)
     ctx.label("nnz0" if not case["subs"] else ("nnz1" if len(case["subs"]) == 1 else "nnz2+"))
     ctx.nt = _nt_array(A) and _nt_split(case["shape"], rd, cd)
+    stored = S.nnz
     with ctx.sut("sptensor.to_sptenmat"):
         M = S.to_sptenmat(**split_kwargs(spec))
     E = _check_sptenmat(ctx, M, A, rd, cd, "to_sptenmat")
     _sptenmat_conversions(ctx, M, A, E, rd, cd, "sptenmat")
     _stage(ctx, "sptenmat.copy", M.copy, lambda Mc: _check_sptenmat(ctx, Mc, A, rd, cd, "sptenmat.copy"))
-    ctx.check(ref.same_exact(ref.den(S), A) and S.nnz == len(case["subs"]), "operand-unchanged")
+    _stage(ctx, "sptensor.to_sptenmat-again", lambda: S.to_sptenmat(**split_kwargs(spec)),
+           lambda M2: _check_sptenmat(ctx, M2, A, rd, cd, "to_sptenmat-again"))
+    ctx.check(ref.same_exact(ref.den(S), A) and S.nnz == stored, "operand-unchanged")
 
 
 @cell("C01/sptenmat/sptensor", strategy=_sptenmat_case, quick=600, thorough=12000)
@@ -811,13 +1327,17 @@ def sptenmat_sptensor(ctx, case):
 @st.composite
 def _sptenmat_ctor_case(draw, tier):
     c = draw(sparse_holder(tier, min_order=1))
-    c["dtype"] = "float64"
+    c["dtype"] = draw(st.sampled_from(["float64", "int64"])) if c["vkind"] == "int" and c["dtype"] != "uint8" else (
+        "float64")
     N = len(c["shape"])
     r, cd = draw(gen.ordered_partition(N))
     form = draw(st.sampled_from(["both", "both", "rdims", "cdims"]))
     c["split"] = dict(form="both", rdims=r, cdims=cd) if form == "both" else (
         dict(form="rdims", rdims=r) if form == "rdims" else dict(form="cdims", cdims=cd))
-    c["source"] = draw(st.sampled_from(["subs", "dense", "coo", "csr", "csc", "coo-dups", "coo-zero"]))
+    # subs-nocopy: the documented reference-only constructor form (no sorting, no aggregation) given distinct
+    # subscripts in the stored order of the case - an sptenmat in a state the checked constructor never leaves
+    c["source"] = draw(st.sampled_from(["subs", "subs-zero", "subs-nocopy", "dense", "coo", "csr", "csc", "coo-dups",
+                                        "coo-zero"]))
     c["extra"] = draw(st.integers(0, 10**6))  # which entry is split in two / where the explicit zero goes
     return c
 
@@ -839,18 +1359,31 @@ def sptenmat_constructor(ctx, case):
     # (row, col, value) triples in the stored order of the case
     rows = [ref.lin_index([s[d] for d in rd], [case["shape"][d] for d in rd]) for s in case["subs"]]
     cols = [ref.lin_index([s[d] for d in cd], [case["shape"][d] for d in cd]) for s in case["subs"]]
+    vdt = case.get("dtype", "float64")
+    ctx.label("vals-" + vdt)
     vals = np.array(case["vals"], dtype=float)
     kw = split_kwargs(spec)
     ts = tuple(case["shape"])
     src = case["source"]
     with ctx.sut(f"sptenmat-from-{src}"):
-        if src == "subs":
-            if rows:
-                M = ttb.sptenmat(np.array([rows, cols], dtype=int).T.copy(), vals.reshape(-1, 1), tshape=ts, **kw)
+        if src == "subs-nocopy" and rows:
+            M = ttb.sptenmat(np.array([rows, cols], dtype=int).T.copy(), vals.astype(vdt).reshape(-1, 1), tshape=ts,
+                             copy=False, **kw)
+        elif src in ("subs", "subs-zero", "subs-nocopy"):
+            r_, c_, v_ = list(rows), list(cols), [float(v) for v in vals]
+            zs = np.argwhere(E == 0)
+            if src == "subs-zero" and len(zs):
+                # an explicitly stored zero at a cell that is zero anyway: the same matrix
+                z = zs[case["prov_k"] % len(zs)]
+                pos = case["prov_k"] % (len(v_) + 1)
+                r_.insert(pos, int(z[0])), c_.insert(pos, int(z[1])), v_.insert(pos, 0.0)
+            if r_:
+                M = ttb.sptenmat(np.array([r_, c_], dtype=int).T.copy(), np.array(v_).astype(vdt).reshape(-1, 1),
+                                 tshape=ts, **kw)
             else:
                 M = ttb.sptenmat(tshape=ts, **kw)
         elif src == "dense":
-            M = ttb.sptenmat.from_array(E.copy(), tshape=ts, **kw)
+            M = ttb.sptenmat.from_array(E.astype(vdt), tshape=ts, **kw)
         else:
             r_, c_, v_ = list(rows), list(cols), [float(v) for v in vals]
             if src == "coo-dups" and v_:
@@ -868,8 +1401,8 @@ def sptenmat_constructor(ctx, case):
                     z = zs[case["extra"] % len(zs)]
                     pos = case["extra"] % (len(v_) + 1)
                     r_.insert(pos, int(z[0])), c_.insert(pos, int(z[1])), v_.insert(pos, 0.0)
-            coo = sparse.coo_matrix((np.array(v_, dtype=float), (np.array(r_, dtype=int), np.array(c_, dtype=int))),
-                                    shape=E.shape)
+            coo = sparse.coo_matrix((np.array(v_, dtype=float).astype(vdt), (np.array(r_, dtype=int),
+                                                                              np.array(c_, dtype=int))), shape=E.shape)
             m = coo.tocsr() if src == "csr" else (coo.tocsc() if src == "csc" else coo)
             M = ttb.sptenmat.from_array(m, tshape=ts, **kw)
     _check_sptenmat(ctx, M, A, rd, cd, "sptenmat()")
